@@ -12,7 +12,14 @@
 (*     cls grid dims name   projection of the result (dims: [k, n, size])  *)
 (*     g         [cnt |-> [n_face, n_node, n_edge], eq |-> handles the     *)
 (*               attached grid compares equal to, share |-> handles whose  *)
-(*               dataset OBJECT it shares]                                 *)
+(*               dataset OBJECT it shares, mem |-> handles with a variable *)
+(*               sharing memory with one of its variables, leak |-> handles*)
+(*               where an in-place edit of one grid's array shows in the   *)
+(*               other's]                                                  *)
+(*     src sel   selection operations: src[i] = index in the operand of    *)
+(*               the element the data at i came from (tracer run through   *)
+(*               the same call), sel[i] = index in the operand's grid of   *)
+(*               the result grid's element i (identified by its corners)   *)
 (*     val       "eq" | "diff" | "na": values/dims/coords/name/dtype       *)
 (*               against plain xarray run in lock-step on the same data    *)
 (* A trace step is  IsEvent /\ bind logged fields /\ UxOps action: every   *)
@@ -40,7 +47,8 @@ Logged(ln, a, e) ==
    dims |-> [i \in 1..Len(ln.dims) |->
                Dim(ln.dims[i].k, ln.dims[i].n,
                    IF HasKind(e, ln.dims[i].k) THEN e.dims[PosOf(e, ln.dims[i].k)].idx ELSE "none")],
-   name |-> NameOf(ln.name), dt |-> e.dt]
+   name |-> NameOf(ln.name), dt |-> e.dt,
+   al |-> IF ln.op \in SelectOps THEN a.al /\ ln.src = ln.sel ELSE a.al]
 
 Ended(ln, o, a) == \/ ln.out = "xr_refused" /\ o.op \notin OwnOps
                    \/ ln.out = "refused" /\ IsFree(o, a)
@@ -59,7 +67,12 @@ ClausesOf(ln, a, G, o, free, e, L, val) ==
     GridDimsConsistent |-> (val /\ IsUxArr(L)) => ConsistentArr(L) /\ OneGridDim(L),
     GridDimsNumeric |-> (val /\ IsUxArr(L)) => \A i \in 1..Len(ln.dims) :
                                  ln.dims[i].k \in GridKinds => ln.grid # 0 /\ ln.dims[i].size = ln.g.cnt[ln.dims[i].k],
-    DeepCopyIndependent |-> (val /\ o.op \in CopyOps) => a.grid \in Range(ln.g.eq) /\ Range(ln.g.share) = {},
+    DataFollowsGrid |-> (val /\ IsUxArr(L)) => L.al,
+    \* a deep copy's grid: equal to the source's, another dataset object, no variable sharing memory with any
+    \* variable of the source's (mem), and an in-place edit of either grid's arrays does not show in the other (leak)
+    DeepCopyIndependent |-> (val /\ o.op \in CopyOps) =>
+                               /\ a.grid \in Range(ln.g.eq) /\ Range(ln.g.share) = {}
+                               /\ Range(ln.g.mem) = {} /\ Range(ln.g.leak) = {},
     Name     |-> (val /\ ~free) => e.name = "free" \/ NameOf(ln.name) = e.name,
     ValuesAsXarray |-> ln.val # "diff"
   ]
@@ -71,7 +84,7 @@ Failed(ln, a, G) == IF ~IsEvent(ln) THEN {"IsEvent"}
                     ELSE LET c == Clauses(ln, a, G) IN { k \in DOMAIN c : ~c[k] }
 
 InitClauses(t) == LET a == t.init.arr G == t.init.grids
-                  IN /\ GridOK(G) /\ Len(G) >= 2 /\ ArrOK(a, G) /\ IsUxArr(a) /\ ConsistentArr(a) /\ a.grid # 0
+                  IN /\ GridOK(G) /\ Len(G) >= 2 /\ ArrOK(a, G) /\ IsUxArr(a) /\ ConsistentArr(a) /\ a.grid # 0 /\ a.al
 
 (* ---- the trace machine --------------------------------------------------- *)
 Dummy == Start(<<>>, "n_face")
